@@ -191,6 +191,8 @@ def outcome_menu(cfg):
     if cfg.get('same_exc'):
         menu += ['exc_same']           # the transport re-raises ONE stored exception object (a circuit breaker, a mock side effect)
     if cfg.get('c19'):
+        if rk == 'batch':
+            menu += ['elem_error']      # an answered batch in which one call failed (no batch-level error)
         if not notif:
             menu += ['notjson', 'notresp', 'identity']
         else:
@@ -225,6 +227,8 @@ def body_for(cfg, name, k, same=None):
         return json.dumps(resp(ids[0], error=err(code)))
     if name == 'elem_listed':
         return json.dumps([resp(ids[0], error=err(C1)), resp(ids[1], result={'attempt': k, 'id': ids[1]})])
+    if name == 'elem_error':
+        return json.dumps([resp(ids[0], result={'attempt': k, 'id': ids[0]}), resp(ids[1], error=err(CU))])
     if name in ('level_listed', 'level_listed2', 'level_unlisted'):
         code = {'level_listed': C1, 'level_listed2': C2, 'level_unlisted': CU}[name]
         if name == 'level_listed' and cfg.get('zero_code'):
